@@ -34,6 +34,7 @@ import (
 
 	time2 "github.com/oxia-db/oxia/common/time"
 	"github.com/oxia-db/oxia/proto"
+	"github.com/oxia-db/oxia/server"
 	"github.com/oxia-db/oxia/server/wal"
 	"github.com/oxia-db/oxia/server/wal/codec"
 
@@ -68,6 +69,9 @@ type Hist struct {
 }
 
 func (h Hist) ID() string {
+	if h.Mode == "ctrl" {
+		return fmt.Sprintf("ctrl/v2/seg%d/k%d", h.Cap, h.K)
+	}
 	s := fmt.Sprintf("%s/%s/%s/cap%d/k%d", h.Mode, h.Codec, h.Profile, h.Cap, h.K)
 	if h.Mode == "crash" {
 		s += fmt.Sprintf("m%d/%s", h.M, h.Sync)
@@ -1541,6 +1545,10 @@ func runJob(job Job) (res *JobResult) {
 			res.Infra = fmt.Sprintf("%v\n%s", r, debug.Stack())
 		}
 	}()
+	if job.Hist.Mode == "ctrl" {
+		runCtrl(job, res)
+		return res
+	}
 	b := runHistory(job.Hist)
 	en := &engine{b: b, job: job, res: res, seen: map[uint64]bool{}, root: filepath.Join(scratch, "eval"), nviol: map[string]int{}}
 	if job.Deadline != 0 {
@@ -1569,6 +1577,266 @@ func runJob(job Job) (res *JobResult) {
 		en.corruptImages()
 	}
 	return res
+}
+
+// ---------------------------------------------------------------------------------------------
+// controller level: which commit offset do the real controllers hand to the WAL at open time?
+//
+// A real RF=1 leader writes K entries (all committed and applied: the DB commit offset is K-1), is
+// closed cleanly, one record of the WAL is damaged, and the node is restarted through
+// NewFollowerController / NewLeaderController over the damaged WAL directory and a copy of the DB.
+// Every damaged entry is committed, so by the property the damage must be reported; what is observed is
+// the head offset the restarted node reports in its NewTerm response versus the DB commit offset.
+
+func snapshotDir(root string) map[string][]byte {
+	out := map[string][]byte{}
+	_ = filepath.Walk(root, func(p string, info os.FileInfo, err error) error {
+		if err != nil || info.IsDir() {
+			return nil
+		}
+		c, err := os.ReadFile(p)
+		if err != nil {
+			infra("snapshot: %v", err)
+		}
+		rel, _ := filepath.Rel(root, p)
+		out[rel] = c
+		return nil
+	})
+	return out
+}
+
+func restoreDir(root string, files map[string][]byte) {
+	_ = os.RemoveAll(root)
+	for rel, c := range files {
+		if c == nil {
+			continue
+		}
+		p := filepath.Join(root, rel)
+		if err := os.MkdirAll(filepath.Dir(p), 0o755); err != nil {
+			infra("restore: %v", err)
+		}
+		if err := os.WriteFile(p, c, 0o644); err != nil {
+			infra("restore: %v", err)
+		}
+	}
+}
+
+type ctrlObs struct {
+	pan     *panicInfo
+	openErr error
+	termErr error
+	head    int64
+}
+
+func (o *ctrlObs) summary() string {
+	switch {
+	case o.pan != nil:
+		return fmt.Sprintf("panic in %s (%s): %s", o.pan.phase, o.pan.fn, o.pan.msg)
+	case o.openErr != nil:
+		return "controller constructor failed: " + strings.ReplaceAll(o.openErr.Error(), scratch, "")
+	case o.termErr != nil:
+		return "NewTerm failed: " + o.termErr.Error()
+	}
+	return fmt.Sprintf("node restarted without error, NewTerm reports head offset %d", o.head)
+}
+
+func runCtrl(job Job, res *JobResult) {
+	h := job.Hist
+	walRoot := filepath.Join(scratch, "cwal")
+	dbRoot := filepath.Join(scratch, "cdb")
+	cfg := server.Config{NotificationsRetentionTime: time.Hour}
+	newWalF := func() wal.Factory {
+		return wal.NewWalFactory(&wal.FactoryOptions{BaseWalDir: walRoot, Retention: time.Hour, SegmentSize: int32(h.Cap), SyncData: true})
+	}
+	// --- history on a real leader
+	kvf := oxh.NewDirFactory(dbRoot)
+	rpc := server.NewReplicationRpcProvider(nil)
+	lc, err := server.NewLeaderController(cfg, wns, wshard, rpc, newWalF(), kvf)
+	if err != nil {
+		infra("leader: %v", err)
+	}
+	if _, err := lc.NewTerm(&proto.NewTermRequest{Shard: wshard, Term: 1}); err != nil {
+		infra("NewTerm: %v", err)
+	}
+	if _, err := lc.BecomeLeader(bgCtx, &proto.BecomeLeaderRequest{Shard: wshard, Term: 1, ReplicationFactor: 1, FollowerMaps: map[string]*proto.EntryId{}}); err != nil {
+		infra("BecomeLeader: %v", err)
+	}
+	sh := int64(wshard)
+	for i := 0; i < h.K; i++ {
+		if _, err := lc.WriteBlock(bgCtx, &proto.WriteRequest{Shard: &sh, Puts: []*proto.PutRequest{{Key: fmt.Sprintf("k%d", i), Value: []byte(fmt.Sprintf("value-%d", i))}}}); err != nil {
+			infra("write %d: %v", i, err)
+		}
+	}
+	st, err := lc.GetStatus(&proto.GetStatusRequest{Shard: wshard})
+	if err != nil {
+		infra("GetStatus: %v", err)
+	}
+	commit, headBefore := st.CommitOffset, st.HeadOffset
+	if err := lc.Close(); err != nil {
+		infra("close leader: %v", err)
+	}
+	_ = kvf.Close()
+	walFiles := snapshotDir(walRoot)
+	dbFiles := snapshotDir(dbRoot)
+	if commit != headBefore || commit < 0 {
+		infra("RF=1 leader: commit %d head %d", commit, headBefore)
+	}
+	// --- records
+	type crec struct {
+		file      string
+		pos, plen int
+		off       int64
+		last      bool // in the newest segment
+	}
+	var recs []crec
+	var segBases []int64
+	for name := range walFiles {
+		if strings.HasSuffix(name, ".txnx") {
+			var bo int64
+			fmt.Sscanf(filepath.Base(name), "%d.txnx", &bo)
+			segBases = append(segBases, bo)
+		}
+	}
+	sort.Slice(segBases, func(a, b int) bool { return segBases[a] < segBases[b] })
+	for si, bo := range segBases {
+		name := filepath.Join(wns, fmt.Sprint("shard-", wshard), fmt.Sprintf("%d.txnx", bo))
+		c := walFiles[name]
+		pos, off := 0, bo
+		for pos+12 <= len(c) {
+			l := int(binary.BigEndian.Uint32(c[pos:]))
+			if l == 0 {
+				break
+			}
+			recs = append(recs, crec{file: name, pos: pos, plen: l, off: off, last: si == len(segBases)-1})
+			pos += 12 + l
+			off++
+		}
+	}
+	if int64(len(recs)) != commit+1 {
+		infra("parsed %d records, commit offset %d (files %v)", len(recs), commit, keys(walFiles))
+	}
+	res.Counters["ctrl_segments"] = int64(len(segBases))
+	res.Counters["ctrl_entries"] = int64(len(recs))
+
+	restart := func(kind string, wf map[string][]byte) *ctrlObs {
+		restoreDir(walRoot, wf)
+		restoreDir(dbRoot, dbFiles)
+		o := &ctrlObs{head: -2}
+		f := oxh.NewDirFactory(dbRoot)
+		defer f.Close()
+		o.pan = callSafe("restart", func() {
+			if kind == "follower" {
+				fc, err := server.NewFollowerController(cfg, wns, wshard, newWalF(), f)
+				if err != nil {
+					o.openErr = err
+					return
+				}
+				r, err := fc.NewTerm(&proto.NewTermRequest{Shard: wshard, Term: 2})
+				if err != nil {
+					o.termErr = err
+				} else {
+					o.head = r.HeadEntryId.Offset
+				}
+				_ = fc.Close()
+			} else {
+				c, err := server.NewLeaderController(cfg, wns, wshard, server.NewReplicationRpcProvider(nil), newWalF(), f)
+				if err != nil {
+					o.openErr = err
+					return
+				}
+				r, err := c.NewTerm(&proto.NewTermRequest{Shard: wshard, Term: 2})
+				if err != nil {
+					o.termErr = err
+				} else {
+					o.head = r.HeadEntryId.Offset
+				}
+				_ = c.Close()
+			}
+		})
+		return o
+	}
+	for _, kind := range []string{"follower", "leader"} {
+		o := restart(kind, walFiles)
+		res.Evaluations++
+		if o.pan != nil || o.openErr != nil || o.termErr != nil || o.head != commit {
+			infra("undamaged restart as %s: %s (commit %d)", kind, o.summary(), commit)
+		}
+	}
+	seen := map[uint64]bool{}
+	try := func(desc string, r crec, pos int, repl []byte) {
+		if job.Only != "" && job.Only != desc {
+			return
+		}
+		wf := cloneFiles(walFiles)
+		nb := append([]byte{}, walFiles[r.file]...)
+		copy(nb[pos:], repl)
+		wf[r.file] = nb
+		hsh := imageHash(wf)
+		if seen[hsh] {
+			return
+		}
+		seen[hsh] = true
+		res.Images++
+		res.Counters["images_ctrl"]++
+		for _, kind := range []string{"follower", "leader"} {
+			if job.OnlyProv != "" && job.OnlyProv != kind {
+				continue
+			}
+			o := restart(kind, wf)
+			res.Evaluations++
+			key, outcome := "", ""
+			where := "closed-segment"
+			if r.last {
+				where = "current-segment"
+			}
+			switch {
+			case o.pan != nil:
+				key, outcome = "panic:"+o.pan.fn, "ctrl-panic"
+			case o.openErr != nil || o.termErr != nil:
+				outcome = "ctrl-damage-reported-at-restart"
+			case o.head < commit:
+				key = "controller:committed-damage-discarded-silently:" + kind
+				outcome = "ctrl-committed-entries-silently-dropped"
+			default:
+				outcome = "ctrl-restart-ok-damage-latent-in-" + where
+			}
+			res.Counters["outcome_"+outcome]++
+			if job.Verbose {
+				fmt.Fprintf(os.Stderr, "%s | %s | %s | %s | key=%q\n", h.ID(), desc, kind, o.summary(), key)
+			}
+			if len(res.Samples) < 2 && res.Evaluations%41 == 7 {
+				res.Samples = append(res.Samples, map[string]any{"history": h.ID(), "image": desc, "restart_as": kind, "db_commit_offset": commit, "observed": o.summary()})
+			}
+			if key != "" {
+				res.ViolCounts[key]++
+				if res.ViolCounts[key] <= 2 {
+					res.Violations = append(res.Violations, ev.Violation{Key: key, Harness: "c10", Message: fmt.Sprintf("[%s | %s | restart as %s] entry %d is committed (DB commit offset %d) but %s", h.ID(), desc, kind, r.off, commit, o.summary()),
+						Replay: map[string]any{"hist": h, "image": desc, "commit": kind}})
+				}
+			}
+		}
+	}
+	for _, r := range recs {
+		c := walFiles[r.file]
+		for i := 0; i < 12; i++ {
+			for _, v := range reducedValues(c[r.pos+i]) {
+				try(fmt.Sprintf("ctrl:%s@%d(entry %d header+%d)=0x%02x", filepath.Base(r.file), r.pos+i, r.off, i, v), r, r.pos+i, []byte{v})
+			}
+		}
+		for _, l := range []uint32{0, 1, uint32(r.plen) + 1, 0x7fffffff} {
+			var lb [4]byte
+			binary.BigEndian.PutUint32(lb[:], l)
+			try(fmt.Sprintf("ctrl:%s@%d(entry %d length)=0x%08x", filepath.Base(r.file), r.pos, r.off, l), r, r.pos, lb[:])
+		}
+		for _, i := range []int{0, r.plen / 2, r.plen - 1} {
+			p := r.pos + 12 + i
+			for _, v := range []byte{c[p] ^ 0x01, 0x00} {
+				if v != c[p] {
+					try(fmt.Sprintf("ctrl:%s@%d(entry %d payload+%d)=0x%02x", filepath.Base(r.file), p, r.off, i, v), r, p, []byte{v})
+				}
+			}
+		}
+	}
 }
 
 // ---------------------------------------------------------------------------------------------
@@ -1626,6 +1894,11 @@ func plan(tier string) []Hist {
 		}
 		// large records: page-straddling payloads, reduced positions
 		hs = append(hs, Hist{Mode: "corrupt", Codec: cd, Profile: "large", Cap: 2, K: 3, Sync: "each", HeavyFull: tier == "thorough"})
+	}
+	// controller level (Cap = WAL segment size in bytes here)
+	hs = append(hs, Hist{Mode: "ctrl", Codec: "v2", Cap: 128, K: 4})
+	if tier == "thorough" {
+		hs = append(hs, Hist{Mode: "ctrl", Codec: "v2", Cap: 128 * 1024, K: 3}, Hist{Mode: "ctrl", Codec: "v2", Cap: 160, K: 5}, Hist{Mode: "ctrl", Codec: "v2", Cap: 256, K: 4})
 	}
 	return hs
 }
@@ -1697,6 +1970,9 @@ func main() {
 		order[i] = i
 	}
 	weight := func(h Hist) int {
+		if h.Mode == "ctrl" {
+			return 500000
+		}
 		if h.Mode == "corrupt" {
 			w := 200 * h.K * (h.K + 2)
 			if h.Full256 {
